@@ -532,7 +532,8 @@ def run_memory(ctx):
 
 def run(ctx):
     ctx.note('rule', 'one case = (method/operand/out variant, space kind, ufunc); all %d element-wise NumPy ufuncs x 18 spaces '
-                     'are enumerated; the seed varies operand values; distinct = distinct (variant, space, ufunc); a case is '
+                     'are enumerated, plus the lattice {call, reduce, accumulate} x out {array, element} x out dtype x dtype= keyword; the seed '
+                     'varies operand values; distinct = distinct (variant, space, ufunc); a case is '
                      'non-trivial whether NumPy accepts or rejects it (rejection must be mirrored)' % len(UFUNCS))
     ctx.note('ufuncs', len(UFUNCS))
     run_ufuncs(ctx)
